@@ -155,6 +155,10 @@ def _inv_dup_dim_noref(L):
     C.mk_cls('DAWdup', define_as=L.classes['DA'] / L.classes['DW'], ref_unit_symbol='awdup')
 
 
+def _inv_dup_dim_noref_nosym(L):
+    C.mk_cls('DAWdup2', define_as=L.classes['DW'] ** -1 * L.classes['DA'])
+
+
 def _inv_type_dup_symbol(L):
     C.mk_cls('DC', ref_unit_symbol='a0')
 
@@ -253,6 +257,7 @@ INVALID = [
     ('dup-dimension-with-ref-symbol', ('DAB',), 'ValueError', _inv_dup_dim('abdup'), ['abdup']),
     ('dup-dimension-equivalent-term', ('DAB',), 'ValueError', _inv_dup_dim_equiv, ['dup2']),
     ('dup-dimension-over-reference-less-type', ('DAW',), 'ValueError', _inv_dup_dim_noref, ['awdup']),
+    ('dup-dimension-over-reference-less-type-no-symbol', ('DAW',), 'ValueError', _inv_dup_dim_noref_nosym, []),
     ('type-unknown-keyword', (), 'AssertionError', _inv_type_unknown_keyword, ['kw0']),
     ('type-unknown-keyword-derived', ('DA',), 'AssertionError', _inv_type_unknown_keyword_derived, ['kw3']),
     ('type-quantum-without-ref-unit', (), 'AssertionError', _inv_type_quantum_without_ref_unit, []),
